@@ -12,8 +12,8 @@ MANIFEST = {
     'level': 'exploration',
     'technique': 'Hypothesis-generated schedules with add/remove requests (API and admin path) on any node at any time, growing/shrinking 1-5 voters under the operator discipline; safety monitors with per-node member sets, '
                  'member-set == fold of the membership commands in the log, leader-side gate monitor, agreement after a quiet phase',
-    'text': 'dynamicMembershipChange=True. add/remove requests are issued on any live node at any step (refusals are counted, not errors); an added node starts empty with the requester\'s current member list; a node whose removal '
-            'commits is shut down at that step and can only return as a fresh process. After every step: the C01/C03/C04 monitors run with the committing/elected node\'s own member set as the voting set; on a node whose log is not '
+    'text': 'dynamicMembershipChange=True. add/remove requests are issued on any live node at any step (refusals are counted, not errors); an added node starts empty with the committed member list; a node whose removal '
+            'commits is shut down at that step and can only return as a fresh process (its address is reused only after every running node has dropped it). After every step: the C01/C03/C04 monitors run with the committing/elected node\'s own member set as the voting set; on a node whose log is not '
             'compacted the member set must equal the fold of the membership commands currently in its log over its constructor set; a leader must not append a membership entry while an earlier one in its log is uncommitted or before '
             'an entry of its own term is committed. After a quiet closing phase all members hold the same member set, equal to the fold of the committed membership commands.',
     'note': 'The step-wise fold check is skipped on nodes that compacted or installed a snapshot (end-state agreement still checked); majority monitors use each node\'s own view of the voters; network model of pvf/sim.',
